@@ -1260,7 +1260,7 @@ Section Out.
     intros Ho.
     destruct Ho as [o Hqo Hn|p Hn|p Hn Hr|p q ep Np Nq El De Ed|p q ep Np Nq Hrec El De Sp Hpr Sq Elq
                     |p q ep Np Nq Hrec Hfix El De Sp Hpr Sq Elq|p q ep v Np Nq Hrec El De Sp Hpr Sq Hqr Elq Dv
-                    |p q ep Np Nq El De Hpr Hqr Hupr Hpl]; cbn [is_dir_out]; try reflexivity.
+                    |p q ep Np Nq El De Hpr Hqr Hupr Hpl|p q ep v Np Nq Hrec Hfix El De Sp Hpr Sq Hqr Elq Dv]; cbn [is_dir_out]; try reflexivity.
     - destruct o; try contradiction; reflexivity.
     - unfold fisdir. rewrite El, De. now destruct (c_recursive C).
     - rewrite (proj2 (scopeb_spec C q) Sq). cbn [negb]. now rewrite andb_false_r.
@@ -1268,6 +1268,7 @@ Section Out.
     - rewrite (proj2 (scopeb_spec C q) Sq). cbn [negb]. now rewrite andb_false_r.
     - destruct Hpl as [Hr|[Hs _]]; [now rewrite Hr|].
       assert (E : scopeb C p = false) by now apply scopeb_false. rewrite E. now rewrite andb_false_r.
+    - assert (E : scopeb C p = false) by now apply scopeb_false. rewrite E. now rewrite andb_false_r.
   Qed.
 
   (* one operation and one read of the whole queue, from a synchronised-up-to-junk or a pending state *)
